@@ -3,6 +3,7 @@ import GenlmModel.Proofs.MinDet
 import GenlmModel.Proofs.Wfsa2
 import GenlmModel.Proofs.Det
 import GenlmModel.Proofs.LimWfsa
+import GenlmModel.Proofs.LimPush
 /-! # C13 — pushing and trimming preserve the language (determinisation: decided per output) -/
 namespace Genlm.Props.C13
 /-- pushing preserves every string weight when states of zero backward weight accept nothing -/
@@ -30,4 +31,26 @@ alias min_det_deterministic := Genlm.minDet_result_deterministic
 alias min_det_with_push_preserves := Genlm.minDet_push_preserves_of_coacc
 
 alias trim_preserves_limit := Genlm.trim_PL
+/-! ## at the limit (ℝ≥0∞): machines with ε arcs and cycles, TRUE backward weights `bwdL` (least solution) -/
+/-- states the code drops (zero backward weight) carry no weight -/
+alias dropped_states_carry_nothing := Genlm.bwdL_dead
+/-- pushing preserves every string weight as soon as initial states of non-zero weight have finite backward weight … -/
+alias push_preserves_limit := Genlm.push_PL_init
+alias push_preserves_limit_of_finite_total := Genlm.push_PL_of_total_finite
+/-- … and that hypothesis is necessary; without it weight can only be lost, and exactly this much -/
+alias push_loss_accounted := Genlm.push_PL_add_lost
+/-- every kept state of finite potential becomes stochastic -/
+alias push_stochastic_limit := Genlm.push_stochastic_L
+/-- the repaired loop of `push` (arcs into zero-potential states are skipped, fix F17) has the same weights as the model -/
+alias push_drop_same_weights := Genlm.pushDrop_Pk
+alias push_drop_preserves_limit := Genlm.pushDrop_PL
+alias push_drop_stochastic_limit := Genlm.pushDrop_stochastic_L
+/-- `trim_vals` with true forward/backward weights preserves every string weight, no hypothesis -/
+alias trim_vals_preserves_limit := Genlm.trimVals_PL
+/-- THE determinisation pipeline as the code runs it (`self.epsremove.push`, then the subset construction), ε-acyclic input over a
+field: one initial state, no ε arc, ≤ 1 arc per state and symbol, and every string keeps its weight -/
+alias determinize_pipeline_preserves := Genlm.determinize_pipeline_preserves
+alias determinize_pipeline_preserves_decidable := Genlm.determinize_pipeline_preserves_states
+alias determinize_pipeline_drop_preserves := Genlm.determinize_pipelineDrop_preserves
+alias min_det_pipeline_preserves := Genlm.minDet_pipeline_preserves
 end Genlm.Props.C13
